@@ -83,7 +83,8 @@ def generate(ctx):
             ctx.add('parse_key_paths %s' % gen.hexarg(t), kind='escape')
             for i in range(max(0, len(t) - 9), len(t)):
                 ctx.add('parse_key_paths %s' % gen.hexarg(t[:i]), kind='escape-prefix')
-    for t in [b'{"abc}', b'{"', b'{"\\', b'{"\\u12', b'{a', b'a}', b'{', b'}', b'', b'{ }', b'{,}', b'{a,}', b'{1,2', b'{""}', b'{99999999999}', b'{-}', b'{+}', b'{1a}', b'{a b}',
+    for t in [b'{"a\\\\"}', b'{ "dir\\\\" , "x" , 2 }', b'{"\\\\"}', b'{"a\\\\\\\\"}', b'{"a\\\\\\""}', b'{a\\\\}', b'{a\\\\,b}', b'{"a\\\\","b\\\\"}', b'{"\\\\\\""}',
+              b'{"abc}', b'{"', b'{"\\', b'{"\\u12', b'{a', b'a}', b'{', b'}', b'', b'{ }', b'{,}', b'{a,}', b'{1,2', b'{""}', b'{99999999999}', b'{-}', b'{+}', b'{1a}', b'{a b}',
               # what the grammar of KeyPathGrammar.v names as extras, and its edges
               b'{+1}', b'{ +007 , -0 }', b'{a\\u0041b}', b'{a\\u{0041}b}', b'{\\u0031}', b'{a\\"b}', b'{a\\/b}', b'{a\\.b}', b'{-a}', b'{+a}',
               b'{a\x00b}', b'{a\x0cb}', b' \t\r\n{ \n} \n', b'{a\\ud800}', b'{\\\\}', b'{\xff}', b'{2147483648}', b'{-2147483649}', b'{-2147483648}']:
